@@ -74,6 +74,16 @@ func (p *PromiseContainer[T]) Await(ctx context.Context) (val T, err error) {
 		}
 
 		val, valErr := prom.AwaitWithCancelCh(ctx, waitCh)
+		select {
+		case <-waitCh:
+			// the promise was replaced while waiting: use the new promise
+			if ctx.Err() != nil {
+				var empty T
+				return empty, context.Canceled
+			}
+			continue
+		default:
+		}
 		if valErr == nil {
 			return val, nil
 		}
@@ -119,6 +129,16 @@ func (p *PromiseContainer[T]) AwaitWithErrCh(ctx context.Context, errCh <-chan e
 		}
 
 		val, valErr := prom.AwaitWithCancelCh(ctx, waitCh)
+		select {
+		case <-waitCh:
+			// the promise was replaced while waiting: use the new promise
+			if ctx.Err() != nil {
+				var empty T
+				return empty, context.Canceled
+			}
+			continue
+		default:
+		}
 		if valErr == nil {
 			return val, nil
 		}
@@ -165,6 +185,16 @@ func (p *PromiseContainer[T]) AwaitWithCancelCh(ctx context.Context, cancelCh <-
 		}
 
 		val, valErr := prom.AwaitWithCancelCh(ctx, waitCh)
+		select {
+		case <-waitCh:
+			// the promise was replaced while waiting: use the new promise
+			if ctx.Err() != nil {
+				var empty T
+				return empty, context.Canceled
+			}
+			continue
+		default:
+		}
 		if valErr == nil {
 			return val, nil
 		}
